@@ -35,6 +35,9 @@ pub struct IndexPacketHeader {
 impl IndexPacketHeader {
     pub const ID: u8 = 0;
 
+    /// Size of the complete header, including the packet type ID.
+    pub const SIZE: u64 = 16;
+
     pub fn read(reader: &mut dyn Read) -> Result<Self> {
         let mut buffer = [0_u8; 15];
         reader
@@ -127,6 +130,9 @@ pub struct IgnoredPacketHeader {
 
 impl IgnoredPacketHeader {
     pub const ID: u8 = 2;
+
+    /// Size of the complete header, including the packet type ID.
+    pub const SIZE: u64 = 4;
 
     pub fn read(reader: &mut dyn Read) -> Result<Self> {
         // Read Ignored Packet
